@@ -4,7 +4,9 @@ use crate::rng::Rng;
 pub fn gen_case(profile: &str, rng: &mut Rng, out: &mut String) -> bool {
     match profile {
         "C01" => super::c01::gen_case(rng, out, false),
+        "C02" => super::c02::gen_case(rng, out, false),
         "C07" => super::c01::gen_case(rng, out, true),
+        "C08" => super::c02::gen_case(rng, out, true),
         _ => return false,
     }
     true
